@@ -775,12 +775,16 @@ class Rechunk(ArrayExpr):
         # Only match Rechunk, not TasksRechunk (which is already lowered)
         # Don't merge if inner has method='p2p' - preserve explicit p2p semantics
         if type(self.array) is Rechunk and self.array.method != "p2p":
+            # self.chunks is the settled target (resolved against the inner
+            # rechunk's layout, balance already applied): take it verbatim.
+            # Re-resolving the raw spec against the inner's input, or
+            # inheriting the inner's balance flag, could pick other chunks.
             return Rechunk(
                 self.array.array,
-                self._chunks,
+                self.chunks,
                 self.threshold,
                 self.block_size_limit,
-                self.balance or self.array.balance,
+                False,
                 self.method,
             )
 
